@@ -3,7 +3,7 @@ Helper definitions and lemmas for C19 (coordinate conversions and great-circle d
 
 What is assumed about libm: the theorems are stated for any `T : Transc ℝ` with `IsRealLibm T`, i.e. the members
 `sqrt, sin, cos, acos, atan2, pi` of `T` *are* `Real.sqrt, Real.sin, Real.cos, Real.arccos, (y,x) ↦ Complex.arg ⟨x,y⟩, Real.pi`
-and `dblMin > 0`.  Nothing is assumed about the other members.  `realTransc` is one such bundle (its members that no C19
+and `dblMin > 0`.  Nothing is assumed about the other members.  `realLibmTransc` is one such bundle (its members that no C19
 theorem mentions are filled with the corresponding real functions where Mathlib's imported modules have them and with
 the constant `0` otherwise — they are placeholders, not models of libm).
 Floating-point rounding is out of scope: these are statements about the exact real-number semantics of the transliterated formulas.
@@ -27,7 +27,7 @@ structure IsRealLibm (T : Transc ℝ) : Prop where
   dblMin_pos : 0 < T.dblMin
 
 /-- a concrete bundle over `ℝ`; only `sqrt, sin, cos, acos, atan2, pi, dblMin` matter for C19 -/
-noncomputable def realTransc (dblMin dblMax : ℝ) : Transc ℝ where
+noncomputable def realLibmTransc (dblMin dblMax : ℝ) : Transc ℝ where
   sqrt := Real.sqrt
   exp := Real.exp
   log := fun _ => 0
@@ -51,7 +51,7 @@ noncomputable def realTransc (dblMin dblMax : ℝ) : Transc ℝ where
   dblMax := dblMax
   inf := 0
 
-theorem realTransc_isRealLibm {dblMin dblMax : ℝ} (h : 0 < dblMin) : IsRealLibm (realTransc dblMin dblMax) :=
+theorem realLibmTransc_isRealLibm {dblMin dblMax : ℝ} (h : 0 < dblMin) : IsRealLibm (realLibmTransc dblMin dblMax) :=
   ⟨rfl, rfl, rfl, rfl, rfl, rfl, h⟩
 
 /-! ### literals of the model over `fieldScalar T` -/
